@@ -928,8 +928,30 @@ func finishDriver(t *testing.T, fatal []string) {
 	}
 }
 
+// spin starts VERIF_SPIN busy goroutines outside the bubbles, so that the
+// goroutines of the code under test are preempted at arbitrary points
+// (other interleavings inside a wake-up cascade, other log orders).
+func spin() (stop func()) {
+	n := common.EnvInt("VERIF_SPIN", 0)
+	var flag atomic.Bool
+	var wg sync.WaitGroup
+	for i := 0; i < n; i++ {
+		wg.Add(1)
+		go func() {
+			defer wg.Done()
+			x := 0
+			for !flag.Load() {
+				x++
+			}
+			_ = x
+		}()
+	}
+	return func() { flag.Store(true); wg.Wait() }
+}
+
 // TestRandom: seeded random schedules for one client kind (VERIF_MODE).
 func TestRandom(t *testing.T) {
+	defer spin()()
 	m, ok := modes[common.Env("VERIF_MODE", "direct")]
 	if !ok {
 		t.Fatal("unknown VERIF_MODE")
